@@ -232,8 +232,8 @@ impl GExpr {
     pub fn ite(c: GExpr, t: GExpr, e: GExpr) -> GExpr {
         GExpr::If(c.b(), t.b(), e.b())
     }
-    pub fn call(f: &str, args: Vec<GExpr>) -> GExpr {
-        GExpr::Call(f.to_string(), args)
+    pub fn call(f: impl AsRef<str>, args: Vec<GExpr>) -> GExpr {
+        GExpr::Call(f.as_ref().to_string(), args)
     }
     pub fn from_value(v: &GValue) -> GExpr {
         match v {
